@@ -317,6 +317,17 @@ theorem used_docsets_sound (docs : List DocSet) (tasks : List TaskSel) (u : List
       have := List.mem_filter.mp hd
       exact ⟨this.1, List.any_eq_true.mp this.2⟩
 
+/-- **collected_tasks_cover_every_used_corpus**: however the consumer handles the tasks that `on_prepare_track` yields —
+    executed while iterating, or collected first and handed out later in any order (`TrackPreparationActor._seed_tasks`,
+    `tasks.pop()`) — each task stands for its own corpus, so every corpus with a used document set is prepared by one
+    of them (a sequence of tasks is the map of independent tasks: nothing is shared between them) -/
+theorem collected_tasks_cover_every_used_corpus (corpora : List Nat) (used : List DocSet) (handedOut : List Nat)
+    (hperm : handedOut.Perm (prepareTasks corpora used)) (d : DocSet) (hd : d ∈ used) (hc : d.corpus ∈ corpora) :
+    d.corpus ∈ handedOut := by
+  refine hperm.mem_iff.mpr ?_
+  unfold prepareTasks
+  exact List.mem_filter.mpr ⟨hc, List.any_eq_true.mpr ⟨d, hd, by simp⟩⟩
+
 /-- non-vacuity: two tasks with equal-looking (unnamed, same type) operations that restrict the indices differently
     use both document sets; a search task uses none -/
 example : usedDocsets [⟨1, 0, some 10, none, true⟩, ⟨2, 0, some 11, none, true⟩]
